@@ -142,6 +142,66 @@ def systems(quick, seed, dmax):
     return res
 
 
+def concrete_systems(quick, seed):
+    """fourth family: CONCRETE initial vectors.  With symbolic initial values a transient value never coincides with the
+    eventual value, so everything that compares beginning values with the general solution (validity points of the
+    acyclic solver, number of beginning values of the cyclic solver) takes one path only; small concrete vectors with
+    repeated entries and zeros reach the other paths.  Shapes: a source that dies or becomes constant, L delayed copies,
+    accumulators on top.  -> list of (name, A, b, init)"""
+    rnd = random.Random(f"c04-concrete-{seed}")
+    res = []
+    shapes = []
+    for L in (1, 2, 3):
+        for Acc in (0, 1, 2):
+            for src, b0 in (("0", 0), ("0", 1), ("1", 0), ("1/2", 0)):
+                d = L + Acc + 1
+                M = [["0"] * d for _ in range(d)]
+                M[0][0] = src
+                for i in range(1, L + 1):
+                    M[i][i - 1] = "1"
+                for a in range(Acc):
+                    i = L + 1 + a
+                    M[i][i] = "1"
+                    M[i][i - 1] = "1"
+                b = [QPoly.const(b0)] + [QPoly.const(0)] * (d - 1) if b0 else None
+                shapes.append((f"chain/L{L}A{Acc}/src{src}+{b0}", qmat(M), b))
+    vals = [0, 0, 1, 1, 5, -1, 2]
+    per = 2 if quick else 12
+    for name, A, b in shapes:
+        d = len(A)
+        seen = set()
+        for t in range(per):
+            v = tuple(rnd.choice(vals) for _ in range(d))
+            if v in seen:
+                continue
+            seen.add(v)
+            res.append((f"{name}/v={','.join(map(str, v))}", A, b, [Fraction(x) for x in v]))
+    # the coincidence patterns themselves: an early transient value equals the eventual value, a later one does not
+    must = [("chain/L2A1/src0+0", (1, 0, 5, 0)), ("chain/L2A1/src0+0", (5, 0, 0, 1)), ("chain/L3A1/src0+0", (2, 0, 0, 7, 0)), ("chain/L2A0/src0+1", (0, 1, 1)),
+            ("chain/L2A1/src0+1", (0, 1, 3, 0)), ("chain/L3A0/src1+0", (1, 1, 0, 1)), ("chain/L2A2/src0+0", (1, 0, 5, 0, 0))]
+    byname = {s[0]: s for s in shapes}
+    for nm, v in must:
+        _, A, b = byname[nm]
+        res.append((f"{nm}/v={','.join(map(str, v))}", A, b, [Fraction(x) for x in v]))
+    return res
+
+
+NUMERIC_EXTRA = [("GOLD", "J1x2"), ("SQ2", "Jhx2"), ("GOLD", "GOLD", "J1x1"), ("GOLD", "GOLD"), ("CUB", "J2x2"), ("SQ2", "SQ2", "J2x1"), ("J1x2", "GOLD", "J0x1")]
+
+
+def numeric_extra():
+    """systems whose characteristic polynomial has several square-free factors of different multiplicity, rational and
+    irrational roots distributed over them in every order (the exactness flag has to be accumulated over all factors)"""
+    res = []
+    for c in NUMERIC_EXTRA:
+        B = direct_sum([BLOCKS[x] for x in c])
+        d = len(B)
+        for pi, P in enumerate(UNIMOD[d][:2]):
+            Pq, Piq = qmat(P), qmat(int_inverse(P))
+            res.append(("numx/" + "+".join(c) + f"/P{pi}", mmul(mmul(Pq, qmat(B)), Piq), None))
+    return res
+
+
 # ---- the job
 
 def q2sym(q, sp):
@@ -177,10 +237,11 @@ def job(item):
         if b is not None:
             e += q2sym(b[i], sp)
         rec[ms[i]] = sp.expand(e)
-    init = {ms[i]: vs[i] for i in range(d)}
+    v0 = item.get("init")
+    init = {ms[i]: (vs[i] if v0 is None else sp.Rational(v0[i].numerator, v0[i].denominator)) for i in range(d)}
     consts = vs + [sp.Symbol("a")]
     # exact A^k v
-    vec = [QPoly.var(f"v{i}") for i in range(d)]
+    vec = [QPoly.var(f"v{i}") if v0 is None else QPoly.const(v0[i]) for i in range(d)]
     seq = [vec]
     for _ in range(K):
         vec = [sum((A[i][j] * vec[j] for j in range(d)), QPoly()) + (b[i] if b is not None else 0) for i in range(d)]
@@ -256,7 +317,7 @@ def job(item):
                         continue
                     if rep:
                         out["records"].append({"kind": "violation", "key": f"{name}|{sname}|m{i}", "tag": tag,
-                                               "what": f"{sname} solver, component {i} at n={k}: closed form gives {pv}, A^n v gives {ov} at {dict((a, str(b_)) for a, b_ in vals.items())}; flagged exact={exact}; closed form {str(cf)[:160]}",
+                                               "what": f"{sname} solver, component {i} at n={k}: closed form gives {pv}, A^n v gives {ov} at {dict((a, str(b_)) for a, b_ in vals.items()) if v0 is None else 'v = ' + str([str(x) for x in v0])}; flagged exact={exact}; closed form {str(cf)[:160]}",
                                                "replay": {"system": name, "matrix": [[repr(x) for x in row] for row in A], "inhom": [repr(x) for x in b] if b else None,
                                                           "solver": sname, "component": i, "n": k, "values": {a: str(b_) for a, b_ in vals.items()},
                                                           "polar": str(pv), "exact": str(ov)}})
@@ -377,11 +438,14 @@ def main():
     for i, (name, A, b) in enumerate(syss):
         K = 2 * len(A) + 4
         items.append({"name": name, "A": A, "b": b, "K": K, "which": "both", "xcheck": i % 12 == 0})
+    for name, A, b, v0 in concrete_systems(run.quick, run.seed):
+        items.append({"name": name, "A": A, "b": b, "K": 2 * len(A) + 4, "which": "both", "xcheck": False, "init": v0})
     if run.args.only:
         items = [i for i in items if run.args.only in i["name"]]
     results = jobs.run_jobs(job, items, timeout=400)
     run.notes.append({"slowest_jobs": jobs.slowest(items, lambda it: it["name"])})
-    num_items = [it for it in items if not any("a" in x.symbols() for row in it["A"] for x in row)][:: (4 if run.quick else 2)]
+    num_items = [it for it in items if not it.get("init") and not any("a" in x.symbols() for row in it["A"] for x in row)][:: (4 if run.quick else 2)]
+    num_items += [{"name": name, "A": A, "b": b, "K": 2 * len(A) + 4} for name, A, b in numeric_extra() if not run.args.only or run.args.only in name]
     results2 = jobs.run_jobs(numeric_job, num_items, timeout=200)
     nsys = checked = ind = muts = 0
     for it, (st, val) in list(zip(items, results)) + list(zip(num_items, results2)):
@@ -407,7 +471,7 @@ def main():
     run.functions = ["recurrences.recurrences:Recurrences.__init__/_init_data/_init_is_acyclic", "recurrences.solver.acyclic_solver:AcyclicSolver.get",
                      "recurrences.solver.cyclic_solver:CyclicSolver.get/_solve_for_unknowns/_add_beginning_values", "utils.expressions:get_all_roots/numerify_croots"]
     run.bounds = {"dimension_max": dmax, "k_max": "2d+4", "family": "direct sums of the blocks in checks/c04.py:BLOCKS conjugated by unimodular integer matrices, with/without constant inhomogeneous part",
-                  "initial_vector": "fully symbolic (v0..vd-1)", "induction": "general branch, b^n as fresh symbols, n symbolic real: closes all n >= n0",
+                  "initial_vector": "fully symbolic (v0..vd-1); plus the chain family with small concrete vectors (checks/c04.py:concrete_systems)", "induction": "general branch, b^n as fresh symbols, n symbolic real: closes all n >= n0",
                   "outside": "dimension > dmax, eigenvalues outside the block list"}
     run.assumptions = ["denominators of the reported closed form non-zero", "numeric-root envelope (Q4) is evaluated at a concrete initial vector in exact arithmetic (not a solver verdict)"]
     run.finish(explanation="bounded solver-based checking: per (system, solver, component, k<=2d+4) one z3 query closed(k) != (A^k v) over all initial vectors (and parameter a), plus one induction query per component",
